@@ -221,6 +221,28 @@ def r11_4(ctx) -> None:
     hand_ok = all(not (cfgr.exit in cfgr.reachable(h) or any(l in cfgr.reachable(h) for l in loops)) for h in cfgr.nodes if h.kind == "handler")
     ctx.check(req_ok and bool(vcalls) and hand_ok and len(loops) == 1, "R11.4", vr, vr.node, f"{vr.short}", "validate_dict_key_registry does not refuse missing required members / "
               "does not validate present members / swallows validation errors", "required -> raise; present -> validate; errors re-raised", construct="validate_dict_key_registry")
+    # "wrong member types are refused": a member is validated whenever it is PRESENT - the only conditions on the way to registry[k].validate(...) are
+    # membership tests of the key in the given dict (and the required-member refusal); a test of the member's value (`is not None`, truthiness) lets
+    # a null / empty member of the wrong type through
+    for vc in vcalls:
+        vn_ = cfgr.node_of(vc.node)
+        if vn_ is None:
+            continue
+        bad_tests = set()
+        for path in cfgr.guards_of(vn_):
+            for t, _out in path:
+                if t.kind != "test":
+                    continue
+                a = t.ast
+                parts = a.values if isinstance(a, ast.BoolOp) else [a]
+                for q in parts:
+                    if isinstance(q, ast.Compare) and len(q.ops) == 1 and isinstance(q.ops[0], (ast.In, ast.NotIn)) and norm(q.comparators[0]) == dk:
+                        continue
+                    if norm(q).endswith(".required"):
+                        continue
+                    bad_tests.add(norm(q))
+        ctx.check(not bad_tests, "R11.4", vr, vc.node, f"{vr.short} :: condition of validate()", f"a JWK member is type-checked only when {sorted(bad_tests)} holds: a member that is present "
+                  "with a value that fails this test (null, empty) is never validated", f"if k in {dk}: registry[k].validate({dk}[k])", construct="member validation conditional on the member's value")
     # __init__ validates the merged dict
     cfgi = cfg_of(init)
     st = [n for n in fn_nodes(init) if isinstance(n, ast.Assign) and norm(n.targets[0]) == f"{init.self_name}._dict_value" and isinstance(n.value, ast.Name)]
@@ -589,6 +611,63 @@ def r11_18(ctx) -> None:
     ctx.count("R11.18", n, 2, "OKP import class look-ups")
 
 
+def r11_19(ctx) -> None:
+    """R11.19  import-side PEM / DER dispatch of load_pem_key: a format is recognised by a textual marker in the input (`b'...' in raw`, the ssh prefix),
+    and what carries no marker (DER) is offered to the private-key parser WITH the password first; the public-key parser only runs in the handler of
+    that attempt.  Any other test on the way (sniffing DER structure) sends password-protected PKCS#8 - which also starts with a SEQUENCE - to the
+    wrong parser: "DER (optionally password-protected) ... importing the result yields a key with identical material"."""
+    eng = ctx.eng
+    fn = eng.prog.func("rfc7517.pem:load_pem_key")
+    cfg = cfg_of(fn)
+    rp = fn.pos_params[0]
+    calls = {}
+    for s in eng.cg.calls_in(fn):
+        if isinstance(s.node, ast.Call):
+            for x in s.ext:
+                nm = x.split(".")[-1]
+                if nm.startswith("load_"):
+                    calls.setdefault(nm, []).append(s)
+    need = ["load_der_private_key", "load_der_public_key", "load_pem_private_key", "load_pem_public_key"]
+    missing = [x for x in need if x not in calls]
+    if missing:
+        ctx.fail("R11.19", fn, fn.node, f"load_pem_key no longer calls {missing}", construct="load_pem_key loaders")
+        return
+
+    def marker(t) -> bool:
+        a = t.ast
+        parts = a.values if isinstance(a, ast.BoolOp) else [a]
+        for q in parts:
+            if isinstance(q, ast.Compare) and len(q.ops) == 1 and isinstance(q.ops[0], (ast.In, ast.NotIn)) and isinstance(const_value(q.left), bytes) and norm(q.comparators[0]) == rp:
+                continue
+            if isinstance(q, ast.Name) and q.id in fn.params:
+                continue
+            if isinstance(q, ast.Call) and isinstance(q.func, ast.Attribute) and q.func.attr == "startswith" and norm(q.func.value) == rp:
+                continue
+            return False
+        return True
+
+    n = 0
+    for s in calls["load_der_private_key"]:
+        cn = cfg.node_of(s.node)
+        if cn is None:
+            continue
+        n += 1
+        odd = sorted({norm(t.ast) for path in cfg.guards_of(cn) for t, _o in path if t.kind == "test" and not marker(t)})
+        pw = eng.cg.arg_for_param(s, None, "password") if False else next((k.value for k in s.node.keywords if k.arg == "password"), s.node.args[1] if len(s.node.args) > 1 else None)
+        ctx.check(not odd and pw is not None and norm(pw) == "password", "R11.19", fn, s.node, f"{fn.short} :: DER private attempt", f"input without a textual marker does not always reach "
+                  f"load_der_private_key(raw, password=password) first (other tests on the way: {odd})", "marker tests only, then load_der_private_key(raw, password=password)",
+                  construct=f"DER input diverted by {odd}" if odd else "DER private attempt without the password")
+    for s in calls["load_der_public_key"]:
+        n += 1
+        inh = False
+        for h in fn_nodes(fn):
+            if isinstance(h, ast.Try) and any(x is s.node for hh in h.handlers for b in hh.body for x in ast.walk(b)):
+                inh = any(isinstance(x, ast.Call) and norm(x.func).endswith("load_der_private_key") for b in h.body for x in ast.walk(b))
+        ctx.check(inh, "R11.19", fn, s.node, f"{fn.short} :: DER public fallback", "load_der_public_key is reached without the private-key parser having refused the input first",
+                  "except ValueError: load_der_public_key(raw)", construct="DER public parser outside the fallback handler")
+    ctx.count("R11.19", n, 2, "DER loader call sites in load_pem_key")
+
+
 def run(ctx) -> None:
     from .common import forwarding_discipline
     ctx.guard(forwarding_discipline, "R11.15", ['parameters', 'password', 'encoding', 'key_type', 'crv_or_size', 'data', 'value'], 46)  # arguments are handed on under their own name (generic routing rule, rules/common.py)
@@ -605,6 +684,7 @@ def run(ctx) -> None:
     ctx.guard(r11_11)
     ctx.guard(r11_12)
     ctx.guard(r11_18)
+    ctx.guard(r11_19)
     from .c12 import r12_2
     ctx.guard_as("R11.13", r12_2)
     from .c19 import r19_8
